@@ -453,7 +453,7 @@ def run_c19(tier, seed, replay=None):
                                 fails.append({"case_index": k, "what": "a ground answer violates %s" % (g,)})
                                 break
         return fails
-    return pcheck.run_check("C19", tier, seed, cases, "bag_terms", oracle, cone=["Proofs/CLPZProofs.vo", "Proofs/EngineProofs.vo"], replay=replay,
+    return pcheck.run_check("C19", tier, seed, cases, "bag_terms", oracle, cone=["Proofs/CLPZProofs.vo", "Proofs/EngineProofs.vo", "Proofs/FDComp.vo"], replay=replay,
         rule="plusz/timesz over operand values -3..3 (exact and non-exact products, zero divisors), all 8 groundness patterns, the constraint "
              "posted before/between/after the bindings (sampled in the quick tier); random chains of 1-3 constraints with aliasing and "
              "constants under shuffled bindings; oracle: integer arithmetic; non-trivial = at least one answer",
